@@ -332,7 +332,8 @@ func lazyState(repoAbs string, pkgs map[string]*pkgInfo) error {
 		found := false
 		ast.Inspect(n, func(x ast.Node) bool {
 			if se, ok := x.(*ast.SelectorExpr); ok {
-				if id, ok := se.X.(*ast.Ident); ok && (id.Name == "sync" || id.Name == "atomic") {
+				// (atomic values are plain memory: zeroing them between runs is a restart like any other)
+				if id, ok := se.X.(*ast.Ident); ok && id.Name == "sync" {
 					found = true
 				}
 			}
